@@ -38,14 +38,14 @@ Proof. exact (schc_compress_take c cs p). Qed.
 Theorem c15_front_passthrough ctxs p :
   Forall (fun c => falls_through (cm_compress (ctx_parse c) (ctx_rules c) p Up FIRST) = true) ctxs -> schc_compress ctxs p = Ok p.
 Proof. exact (schc_compress_passthrough ctxs p). Qed.
-Theorem c15_front_decompress_skip ct c cs p : cm_decompress ct (ctx_rules c) p None = Exc RuleIDMatchError ->
+Theorem c15_front_decompress_skip ct c cs p : cm_decompress ct (ctx_rules c) p (Some Up) = Exc RuleIDMatchError ->
   schc_decompress ct (c :: cs) p = schc_decompress ct cs p.
 Proof. exact (schc_decompress_skip ct c cs p). Qed.
-Theorem c15_front_decompress_take ct c cs p : cm_decompress ct (ctx_rules c) p None <> Exc RuleIDMatchError ->
-  schc_decompress ct (c :: cs) p = cm_decompress ct (ctx_rules c) p None.
+Theorem c15_front_decompress_take ct c cs p : cm_decompress ct (ctx_rules c) p (Some Up) <> Exc RuleIDMatchError ->
+  schc_decompress ct (c :: cs) p = cm_decompress ct (ctx_rules c) p (Some Up).
 Proof. exact (schc_decompress_take ct c cs p). Qed.
 Theorem c15_front_decompress_passthrough ct ctxs p :
-  Forall (fun c => cm_decompress ct (ctx_rules c) p None = Exc RuleIDMatchError) ctxs -> schc_decompress ct ctxs p = Ok p.
+  Forall (fun c => cm_decompress ct (ctx_rules c) p (Some Up) = Exc RuleIDMatchError) ctxs -> schc_decompress ct ctxs p = Ok p.
 Proof. exact (schc_decompress_passthrough ct ctxs p). Qed.
 
 Example c15_ex :
